@@ -132,6 +132,12 @@ pub struct MdkSqliteStorage {
     connection: Arc<Mutex<Connection>>,
 }
 
+/// Serialises database initialisation (file pre-creation, key lookup or creation, migrations)
+/// between the threads of this process. Two threads opening the same, not yet initialised path
+/// at once would otherwise race: one sees the other's empty pre-created file as an "unencrypted
+/// database", or both run the same migrations and one fails on the schema-history table.
+static INIT_LOCK: Mutex<()> = Mutex::new(());
+
 impl MdkSqliteStorage {
     /// Creates a new encrypted [`MdkSqliteStorage`] with automatic key management.
     ///
@@ -186,6 +192,7 @@ impl MdkSqliteStorage {
         P: AsRef<Path>,
     {
         let file_path = file_path.as_ref();
+        let _init = INIT_LOCK.lock().unwrap_or_else(|e| e.into_inner());
 
         // Atomically create the database file first, BEFORE making key decisions.
         // This prevents TOCTOU races where another process could create the file
@@ -270,6 +277,7 @@ impl MdkSqliteStorage {
         P: AsRef<Path>,
     {
         let file_path = file_path.as_ref();
+        let _init = INIT_LOCK.lock().unwrap_or_else(|e| e.into_inner());
 
         // If the database exists, verify it's encrypted before trying to use the key.
         // This provides a clearer error than letting apply_encryption fail.
@@ -312,6 +320,7 @@ impl MdkSqliteStorage {
             "Creating unencrypted database. Sensitive MLS state will be stored in plaintext. \
              For production use, use new() or new_with_key() instead."
         );
+        let _init = INIT_LOCK.lock().unwrap_or_else(|e| e.into_inner());
         Self::new_internal(file_path, None)
     }
 
